@@ -394,8 +394,149 @@ end Tumfl.Gen
 """
 
 
+# --------------------------------------------------------------------------- AST schema (introspection; C17 C18)
+SCHEMA_SAMPLE = """
+local a <const>, b <close> = 1, nil
+local c
+x, y.z, t[1] = f(1, 'two', {3; k = 4, [5] = 6}), a:m(...), function(p, ...) return p end
+::lbl:: goto lbl
+do break end
+while not a do a = -a ^ 2 .. 'x' end
+repeat local q = #t until q
+if a then b() elseif c then d() else e() end
+if a then end
+for i = 1, 2, 3 do end
+for i = 1, 2 do end
+for k, v in pairs(t) do end
+function n.a.b:c(p, ...) return end
+function g() end
+local function h(...) return ..., nil, true, false, 0x1p4, 1.5e3 end
+f'str' ; g{1}
+o:m 'x'
+return a, (b)
+"""
+
+
+def extract_schema(rep: Report) -> str:
+    import tumfl
+    from tumfl.AST.ASTNode import ASTNode
+    from tumfl.AST.Statement.LocalAssign import AttributedName
+    from tumfl.basic_walker import NoneWalker
+
+    ast = tumfl.parse(SCHEMA_SAMPLE)
+    nodes: list[ASTNode] = []
+
+    def kids(n):
+        out = []
+        for k, v in vars(n).items():
+            if k in ("token", "parent_class", "file_name", "comment", "attributes"):
+                continue
+            if isinstance(v, ASTNode):
+                out.append((k, "node", [v]))
+            elif isinstance(v, list):
+                if any(isinstance(x, AttributedName) for x in v):
+                    out.append((k, "wrapperlist", [c for x in v for c in (x.name, x.attribute) if c is not None]))
+                else:
+                    out.append((k, "nodelist", [x for x in v if isinstance(x, ASTNode)]))
+            elif v is None:
+                out.append((k, "none", []))
+            else:
+                out.append((k, "atom", []))
+        return out
+
+    stack = [ast]
+    while stack:
+        n = stack.pop()
+        nodes.append(n)
+        for _, _, cs in kids(n):
+            stack.extend(cs)
+    by_cls: dict[str, dict] = {}
+    for n in nodes:
+        cls = type(n).__name__
+        d = by_cls.setdefault(cls, {"slots": {}, "compared": None, "linked": {}, "walked": {}, "override": "parent" in type(n).__dict__})
+        compared = sorted(i for i in n._ASTNode__dir() if not callable(getattr(n, i)))
+        if d["compared"] is None:
+            d["compared"] = compared
+        elif d["compared"] != compared:
+            rep.problem("Schema", f"instances of {cls} yield different attribute lists from __dir", a=d["compared"], b=compared)
+        # which children does NoneWalker.visit_<cls> visit directly, and how often
+        seen: list[int] = []
+
+        class Probe(NoneWalker):
+            def visit(self, node):  # record, do not recurse
+                seen.append(id(node))
+
+        w = Probe()
+        getattr(NoneWalker, "visit_" + cls)(w, n)
+        for k, kind, cs in kids(n):
+            kinds = d["slots"].setdefault(k, set())
+            kinds.add(kind)
+            if cs:
+                linked = all(c.parent_class is n for c in cs)
+                d["linked"][k] = d["linked"].get(k, True) and linked
+                counts = [seen.count(id(c)) for c in cs]
+                d["walked"][k] = d["walked"].get(k, True) and all(c == 1 for c in counts)
+        extra = [i for i in seen if i not in {id(c) for _, _, cs in kids(n) for c in cs}]
+        if extra:
+            rep.problem("Schema", f"NoneWalker.visit_{cls} visits something that is not a child")
+    import tumfl.AST as A
+    expected = sorted(c.__name__ for c in vars(A).values() if isinstance(c, type) and issubclass(c, ASTNode)
+                      and not getattr(c, "__abstractmethods__", None) and c.__name__ not in ("ASTNode", "Expression", "Statement", "Variable", "TableField", "BaseFunctionDefinition"))
+    missing = [c for c in expected if c not in by_cls]
+    if missing:
+        rep.problem("Schema", "the sample program does not exercise every node class", missing=missing)
+
+    def kind_of(ks: set) -> str:
+        ks = set(ks)
+        if ks <= {"node"}:
+            return "node"
+        if ks <= {"node", "none"}:
+            return "optnode"
+        if ks <= {"nodelist"}:
+            return "nodelist"
+        if ks <= {"nodelist", "none"}:
+            return "optnodelist"
+        if ks <= {"wrapperlist"}:
+            return "wrapperlist"
+        if ks <= {"atom", "none"}:
+            return "atom"
+        return "mixed:" + "+".join(sorted(ks))
+
+    rows = []
+    for cls in sorted(by_cls):
+        d = by_cls[cls]
+        slots = ", ".join(f"({lstr(k)}, {lstr(kind_of(v))})" for k, v in sorted(d["slots"].items()))
+        compared = ", ".join(lstr(x) for x in d["compared"])
+        linked = ", ".join(lstr(k) for k, v in sorted(d["linked"].items()) if v)
+        walked = ", ".join(lstr(k) for k, v in sorted(d["walked"].items()) if v)
+        exercised = ", ".join(lstr(k) for k in sorted(d["linked"]))
+        rows.append(f"  {{ cls := {lstr(cls)}, slots := [{slots}], compared := [{compared}], linked := [{linked}], walked := [{walked}], exercised := [{exercised}] }}")
+    rep.info["schema"] = {"classes": len(by_cls), "nodes": len(nodes)}
+    return """/-! GENERATED by harness/extract.py from /repo by introspection of a sample AST covering every node class - do not edit.
+For each class: the structural slots found by reflection (`vars`), the attributes `ASTNode.__dir` yields that are not callable (what `__eq__`
+compares and `parent()` scans), the child slots whose children carry a correct parent link after `parse`, the child slots whose children
+`NoneWalker.visit_<class>` visits exactly once, and the child slots that held at least one child in the sample. -/
+namespace Tumfl.Gen
+
+structure ClassSchema where
+  cls : String
+  slots : List (String × String)
+  compared : List String
+  linked : List String
+  walked : List String
+  exercised : List String
+
+def schema : List ClassSchema := [
+""" + ",\n".join(rows) + """
+]
+
+end Tumfl.Gen
+"""
+
+
 EXTRACTORS = {
     "Brackets": extract_brackets,
+    "Schema": extract_schema,
     "FmtTables": extract_fmttables,
     "Ladder": extract_ladder,
     "LexTables": extract_lextables,
